@@ -739,7 +739,16 @@ class Interp:
                 # symbols are real, but the value of a user function over a generic ComplexField may be complex: real() of it loses a part
                 return sp.re(v)
             if isinstance(v, Variant) and v.name in ("Ok", "Some") and len(v.args) == 1 and name in ("unwrap", "expect", "ok_or", "ok_or_else", "map_err"):
+                if name in ("ok_or", "ok_or_else") and v.name == "Some":
+                    return Variant("Ok", list(v.args))                 # Option -> Result, exactly
                 return v.args[0] if name in ("unwrap", "expect") else v
+            if isinstance(v, Variant) and v.name == "None" and name in ("ok_or", "ok_or_else") and len(n["args"]) == 1:
+                a0 = n["args"][0]
+                if name == "ok_or":
+                    return Variant("Err", [self.ev(a0)])
+                if a0.get("k") == "Closure":
+                    return Variant("Err", [self.apply_closure(ClosureVal(a0, None), [], n)])
+                return Variant("Err", [Opaque("error")])
             return v
         if name in MATH_METHODS and not n["args"]:
             return MATH_METHODS[name](self.num(self.ev(n["recv"]), n))
